@@ -991,6 +991,13 @@ def lookahead_wiring(ctx, rules=("C04.f",)):
         ins = p.calls(r"HashMap.*::insert$")
         m += 1
         ok = len(ins) == 1 and S.fstr(ins[0][3][1]) == "terminal_id" and S.fstr(ins[0][3][2]) == "lookahead" and "lookaheads" in S.fstr(ex2.deref_val(p, ins[0][3][0]) if ins[0][3][0][0] == "ref" else ins[0][3][0])
+        if not ins:
+            # replace-in-place form: `match map.get_mut(&t) { Some(e) => *e = l, None => { map.insert(t, l); } }` — on the Some path the
+            # entry found under this terminal is overwritten with the lookahead
+            gm = [e for e in p.calls(r"HashMap.*::get_mut(::<.*>)?$") if len(e[3]) == 2 and "lookaheads" in S.fstr(ex2.deref_val(p, e[3][0]) if e[3][0][0] == "ref" else e[3][0]) and S.fstr(ex2.deref_val(p, e[3][1]) if e[3][1][0] == "ref" else e[3][1]).lstrip("&*") == "terminal_id"]
+            if len(gm) == 1 and variant_of(ex2, p, gm[0][4]) == "Some":
+                ws = [e for e in p.events if e[0] == "write" and e[2][0] != "local" and S.mentions(e[2], lambda x: x == gm[0][4]) and e[4] == ("sym", "lookahead")]
+                ok = len(ws) == 1
         ob("add_lookahead-stores-(terminal, lookahead)", ok, "insert(%s)" % (", ".join(S.fstr(a)[:40] for a in ins[0][3]) if ins else None), al.loc())
     for r in rules:
         ctx.floor(r, "paths of add_lookahead", m, 1)
